@@ -18,13 +18,14 @@ import (
 type Profile struct {
 	Prop   string // "C07" or "C08"
 	Import string // Coq module with [run]
+	Type   string // Coq type of one case
 	Rule   string
 }
 
 var (
-	C07 = Profile{Prop: "C07", Import: "Da.C07Check",
+	C07 = Profile{Prop: "C07", Import: "Da.C07Check", Type: "c07_case",
 		Rule: "one case = one operation (publish / submit-invalidity / submit-validity-proof / (un)register deputy / block end) executed on the real application with the projection of x/da state and balances dumped before and after; non-trivial (DESIGN.md section 9) when a block end fell within 1 s of a challenge/proof/retention deadline of some item or changed at least one item's status; distinct by (set of transitions, offset bucket to the nearest deadline, number of items)"}
-	C08 = Profile{Prop: "C08", Import: "Da.C08Check",
+	C08 = Profile{Prop: "C08", Import: "Da.C08Check", Type: "da_case",
 		Rule: "one case = one operation on the real application with x/da state and real bank balances (module account, publishers, challengers, validators) before and after; non-trivial (DESIGN.md section 9) when the block end resolved an item that had at least one challenger, or expired an item below the threshold with at least one invalidity record; distinct by (transition, number of challengers, records left, collateral vectors)"}
 )
 
@@ -42,6 +43,9 @@ type Runner struct {
 	// BlockFailed is set when a block end returned an error or panicked (the application is
 	// not usable afterwards).
 	BlockFailed bool
+	// ghost: the items as they stood after the previous block end of this application (C07's
+	// history monitor judges every move against it).
+	ghost []Item
 }
 
 func (rn *Runner) dump() State {
@@ -81,8 +85,17 @@ func (rn *Runner) Do(op *Op) (State, State) {
 	rn.W.Apply(op, rn.TNext)
 	rn.invalidate()
 	post := rn.dump()
-	rn.CF.Add(CaseTerm(pre, *op, post))
+	term := CaseTerm(pre, *op, post)
+	if rn.Prof.Prop == "C07" {
+		g := make([]string, len(rn.ghost))
+		for i, it := range rn.ghost {
+			g[i] = fmt.Sprintf("(%d, %d, %d)", it.URI, it.Status, it.Ts)
+		}
+		term = fmt.Sprintf("HCase %s (%s)", emit.List(g), term)
+	}
+	rn.CF.Add(term)
 	info := op.Info()
+	info["ghost_after_previous_block"] = fmt.Sprint(len(rn.ghost), " items")
 	info["tag"] = rn.tag
 	info["pre"] = summarize(pre)
 	info["post"] = summarize(post)
@@ -94,6 +107,7 @@ func (rn *Runner) Do(op *Op) (State, State) {
 		if op.Res != 0 {
 			rn.BlockFailed = true
 		}
+		rn.ghost = post.Items
 		rn.Advance(time.Second)
 	}
 	return pre, post
@@ -290,6 +304,7 @@ func (rn *Runner) NewWorldN(nAcct int, jail bool) {
 	}
 	rn.W = NewWorld(nAcct, 4, 1_000_000_000_000)
 	rn.invalidate()
+	rn.ghost = nil
 	w := rn.W
 	// one poor account: everything but 50 of each denom goes to another account
 	rn.Poor = w.AcctIDs[len(w.AcctIDs)-1]
@@ -535,6 +550,64 @@ func (rn *Runner) Corpus() {
 	rn.finish()
 }
 
+// SameBlock: what one block end may and may not do to one item. Items in every phase meet in one
+// block; a challenge that reaches the threshold arrives in the very block whose time is the
+// challenge deadline (the handler still accepts it, so it must be tallied, not expire); an item is
+// published and challenged over the threshold in one block; a long time jump lets both deadlines of
+// an item pass before the next block (one move per block all the same); periods of one nanosecond
+// (accepted by Params.Validate).
+func (rn *Runner) SameBlock() {
+	rn.tag = "corpus:same-block-phases"
+	rn.NewWorldN(6, false)
+	a := func(i int) int { return rn.W.AcctIDs[i] }
+	base := PSet{Thr: "0.5", RF: "1", CP: 10 * time.Second, PP: 10 * time.Second, Rej: 12 * time.Second, Ver: 12 * time.Second,
+		PC: [2]int64{1000, 0}, IC: [2]int64{100, 0}}
+	rn.SetParams(base)
+	uA, _ := rn.Publish(a(0), 4, 0)
+	uB, _ := rn.Publish(a(0), 4, 0)
+	rn.Publish(a(3), 4, 1) // C: nobody challenges
+	uD, _ := rn.Publish(a(3), 2, 0)
+	rn.Inval(a(1), uD, 0) // D reaches 0.5 * 2 at once
+	_, post, _ := rn.EndBlock()
+	t0 := findItem(post, uA).Ts
+	// the block whose time is exactly the challenge deadline of A, B, C (and the proof deadline of D)
+	rn.AdvanceTo(ns(t0 + 10_000_000_000))
+	rn.Inval(a(1), uA, 0, 1) // reaches the threshold in the deadline block: must become challenging
+	rn.Inval(a(2), uB, 3)    // stays below: B expires
+	uE, _ := rn.Publish(a(4), 4, 0)
+	rn.Inval(a(1), uE, 2, 3) // published and over the threshold in one block
+	rn.EndBlock()
+	// time jump over every pending deadline: A, E tallied; B, C, D pruned; nothing does two moves
+	rn.BlockAt(ns(t0 + 35_000_000_000))
+	rn.BlockAt(ns(t0 + 36_000_000_000))
+	rn.BlockAt(ns(t0 + 60_000_000_000))
+	// one-nanosecond periods
+	short := base
+	short.CP, short.PP, short.Rej, short.Ver = time.Nanosecond, time.Nanosecond, time.Nanosecond, time.Nanosecond
+	rn.SetParams(short)
+	rn.Publish(a(0), 4, 0)
+	uG, _ := rn.Publish(a(3), 4, 0)
+	rn.Inval(a(1), uG, 0, 1)
+	rn.EndBlock() // F stays (its deadline is 1 ns ahead), G challenging
+	for i := 0; i < 4; i++ {
+		rn.Advance(time.Nanosecond)
+		if i == 1 {
+			rn.Publish(a(4), 3, 0)
+		}
+		rn.EndBlock()
+	}
+	// a jump with the short periods: verified now, pruned only at the next block
+	rn.Publish(a(0), 4, 0)
+	uI, _ := rn.Publish(a(3), 4, 0)
+	rn.Inval(a(2), uI, 0, 1)
+	rn.Advance(30 * time.Second)
+	rn.EndBlock()
+	rn.Advance(30 * time.Second)
+	rn.EndBlock()
+	rn.SetParams(base)
+	rn.finish()
+}
+
 // RejectShares: rejected items with k = 1..9 challengers whose publish collateral leaves every
 // interesting remainder modulo k (0, 1, k/2, k/2+1, k-1; the quotient is odd so that a remainder of
 // exactly k/2 is rounding-sensitive too), two remainder classes per item (one per denom). The items
@@ -641,12 +714,12 @@ func (rn *Runner) finish() {
 var (
 	thrs = []string{"0.33", "0.5", "0.1", "1", "0.25", "0.34", "0.75"}
 	rfs  = []string{"1", "0.5", "2", "5", "1.5"}
-	cps  = []time.Duration{4 * time.Second, 6500 * time.Millisecond, 10 * time.Second, 7123456789}
-	pps  = []time.Duration{5 * time.Second, 8 * time.Second, 6000000001, 500 * time.Millisecond, 3 * time.Second}
-	rets = []time.Duration{6 * time.Second, 9 * time.Second, 12500 * time.Millisecond}
+	cps  = []time.Duration{4 * time.Second, 6500 * time.Millisecond, 10 * time.Second, 7123456789, time.Second}
+	pps  = []time.Duration{5 * time.Second, 8 * time.Second, 6000000001, 500 * time.Millisecond, 3 * time.Second, time.Nanosecond}
+	rets = []time.Duration{6 * time.Second, 9 * time.Second, 12500 * time.Millisecond, time.Second, time.Nanosecond}
 	pcs  = [][2]int64{{1_000_000_000, 0}, {1000, 0}, {1000, 7}, {0, 0}, {10, 3}, {0, 5}, {1001, 8}, {5, 2}, {1_000_000_001, 0}}
 	ics  = [][2]int64{{100_000_000, 0}, {100, 0}, {100, 3}, {0, 0}, {7, 1}, {60, 0}}
-	offs = []int64{-1_500_000_000, -999_999_999, -400_000_000, -1, 0, 1, 400_000_000, 999_999_999, 1_000_000_000}
+	offs = []int64{-1_500_000_000, -999_999_999, -400_000_000, -1, 0, 0, 0, 1, 400_000_000, 999_999_999, 1_000_000_000}
 )
 
 func (rn *Runner) randParams() PSet {
@@ -664,6 +737,10 @@ func (rn *Runner) pickTime() {
 		if d := deadline(s, it); d > now-2_000_000_000 {
 			ds = append(ds, d)
 		}
+	}
+	if r.Chance(1, 14) { // time jump over several deadlines at once
+		rn.Advance(time.Duration(12_000_000_000 + r.Int63n(30_000_000_000)))
+		return
 	}
 	if len(ds) > 0 && r.Chance(6, 10) {
 		t := ds[r.Intn(len(ds))] + emit.Pick(r, offs...)
@@ -756,6 +833,34 @@ func (rn *Runner) randMsg() {
 	if len(s.Items) == 0 && r.Chance(1, 2) {
 		rn.Publish(anyAcct(), 1+r.Intn(6), 0)
 		return
+	}
+	// reach the threshold in one message, preferably on an item whose challenge window closes with
+	// the block being assembled (accepted by the handler, so it must still be tallied)
+	var open []Item
+	for _, it := range itemsWith(s, StChallenge) {
+		d := it.Ts + s.Prm.CP - rn.TNext.UnixNano()
+		if d == 0 {
+			open = append(open, it, it, it, it)
+		} else if d > 0 {
+			open = append(open, it)
+		}
+	}
+	if len(open) > 0 && r.Chance(1, 6) {
+		it := open[r.Intn(len(open))]
+		sender := 0
+		for _, c := range w.AcctIDs[:len(w.AcctIDs)-1] {
+			fresh := true
+			for _, v := range s.Invs {
+				fresh = fresh && !(v.URI == it.URI && v.Sender == c)
+			}
+			if fresh {
+				sender = c
+			}
+		}
+		if sender != 0 {
+			rn.Inval(sender, it.URI, subset(r, it.N, it.N)...)
+			return
+		}
 	}
 	// pile on: many accounts challenge the same item, one index each
 	if cp := itemsWith(s, StChallenge); len(cp) > 0 && r.Chance(1, 10) {
@@ -912,8 +1017,9 @@ func (rn *Runner) RandomWorld(nOps int, k int) {
 // Run is the entry point shared by packages c07 and c08.
 func Run(prof Profile, seed int64, n int, outDir string) error {
 	rn := &Runner{R: emit.NewRand(seed), St: emit.NewStats(prof.Prop, seed, prof.Rule), Prof: prof,
-		CF: &emit.CasesFile{Import: prof.Import, Runner: "run", Type: "da_case"}}
+		CF: &emit.CasesFile{Import: prof.Import, Runner: "run", Type: prof.Type}}
 	rn.Corpus()
+	rn.SameBlock()
 	rn.RejectShares()
 	if zeroGuarded(prof) {
 		rn.ZeroThreshold()
